@@ -227,7 +227,7 @@ Proof.
       t_topic_data t_representation].
     repeat split; try reflexivity; try constructor; cbn;
       try (unfold in_i32, in_u32, i32_min, i32_max, u32_max; lia); try (intros [C _]; discriminate).
-    all: match goal with |- ?g => idtac g end. all: fail "left". }
+    all: unfold wf_octets, u32_max; cbn; lia. }
   split; [vm_compute; reflexivity|]. split; [reflexivity|].
   eexists. split; [vm_compute; reflexivity|]. split; [reflexivity|]. intros C. discriminate.
 Qed.
@@ -256,4 +256,5 @@ Proof.
     w_remote_writer_guid w_remote_group_entity_id w_unicast_locator_list w_multicast_locator_list].
   repeat split; try reflexivity; repeat constructor; cbn;
     try (unfold in_i32, in_u32, i32_min, i32_max, u32_max; lia); try (intros [C _]; discriminate); try lia.
+  all: try (unfold wf_octets, u32_max; cbn; lia).
 Qed.
